@@ -11,19 +11,26 @@ def skipWs : List UInt8 → List UInt8
   | b :: rest => if isWs b then skipWs rest else b :: rest
   | [] => []
 
+def isSimpleEscape (e : UInt8) : Bool :=
+  e == 0x22 || e == 0x5c || e == 0x2f || e == 0x62 || e == 0x66 || e == 0x6e || e == 0x72 || e == 0x74
+
 /-- after the opening quote: consume up to and including the closing quote -/
 def strBody : List UInt8 → Option (List UInt8)
   | [] => none
-  | 0x22 :: rest => some rest
-  | 0x5c :: e :: rest =>
-    if e == 0x22 || e == 0x5c || e == 0x2f || e == 0x62 || e == 0x66 || e == 0x6e || e == 0x72 || e == 0x74 then strBody rest
-    else if e == 0x75 then
+  | b :: rest =>
+    if b = 0x22 then some rest
+    else if b = 0x5c then
       match rest with
-      | a :: b :: c :: d :: rest' => if isHex a && isHex b && isHex c && isHex d then strBody rest' else none
-      | _ => none
-    else none
-  | [0x5c] => none
-  | b :: rest => if b < 0x20 then none else strBody rest
+      | [] => none
+      | e :: rest' =>
+        if isSimpleEscape e then strBody rest'
+        else if e = 0x75 then
+          if 4 ≤ rest'.length ∧ (rest'.take 4).all isHex then strBody (rest'.drop 4) else none
+        else none
+    else if b < 0x20 then none
+    else strBody rest
+termination_by l => l.length
+decreasing_by all_goals simp_wf <;> (try simp only [List.length_drop]) <;> omega
 
 def digits : List UInt8 → List UInt8
   | b :: rest => if isDigit b then digits rest else b :: rest
